@@ -4,7 +4,7 @@ import json
 T = "bounded symbolic execution of the real go/ssa of /repo (own SSA->SMT-LIB executor); every branch and proof obligation decided by z3 over bit-vectors; counterexamples replayed natively"
 NOTE = "trusted: go/ssa front end, z3; environment stubs listed in the evidence file (vfsx file-system model for os.Root/renameio, ideal-hash MD4, sequentialised goroutines); bounds stated in coverage.bounds"
 claimed = {
- "C01": "Bounded: per regular file, the three real stages generator -> sender -> receiver composed; destination == source bytes (or skipped with equal sizes) for every source content, prior destination state, seed, mtime and -c -I -t -p; plus a directory push through the real client, option plumbing and receiving server.",
+ "C01": "Bounded: per regular file, the three real stages generator -> sender -> receiver composed; destination == source bytes (or skipped with equal sizes) for every source content, prior destination state, seed, mtime and -c -I -t -p; the same at the real block size (700..1401-byte files with symbolic bytes); two files in one sender session; a pull of one file through the real client stack; a directory push through the real client, option plumbing and receiving server.",
  "C05": "Bounded: hostile file lists (arbitrary name bytes, any type) and arbitrary daemon sub-directory arguments: every file-system effect goes through the destination root handle, descriptor-relative calls use a plain base name; os.Root's own confinement is trusted.",
  "C06": "Bounded: daemon text protocol with arbitrary request paths below modules whose names are prefixes of one another: every object the sender looks at lies inside the requested module; only ambient call is OpenRoot(module path).",
  "C07": "Bounded: daemon text protocol end to end for read-only / writable / fs.FS modules under every subset of -r --delete -n -p -t and sub-directory targets: not writable => no file-system event at all, error + error frame.",
@@ -12,9 +12,9 @@ claimed = {
  "C14": "Bounded: every subset of the transfer options in both directions: client ServerOptions() -> real server parser agreement; encoder/decoder stream agreement under all field-adding options; push end to end through real option plumbing incl. --delete.",
  "C19": "Bounded: rule lists up to length 2 (thorough 3) over allow/deny/malformed x all/symbolic IPv4 and IPv6 networks/malformed, client IPv4, IPv6, IPv4-mapped: checkACL == first-match reference; real net.IPNet.Contains executed.",
  "C20": "Bounded: key admission through the real Serve/PublicKeyCallback for symbolic key blobs and key sets; channel/request dispatch for symbolic types; command lines from a 12-word vocabulary through the SSH command callback and the real option parser: only the daemon protocol is reachable.",
- "C02": "Bounded model checking: sender token stream vs an independent reference receiver for all bases/targets/seeds up to the stated lengths and block sizes; receiver vs all scripted token streams. Exhaustive inside the bound by SMT, nothing claimed outside.",
+ "C02": "Bounded model checking: sender token stream vs an independent reference receiver for all bases/targets/seeds up to the stated lengths and block sizes (incl. weak-checksum collisions next to duplicated blocks, two-file sessions); receiver vs all scripted token streams; the sender's read window on files larger than 256 KiB for the request shapes the delta search makes. Exhaustive inside the bound by SMT, nothing claimed outside.",
  "C03": "Bounded: adversarial data segments (symbolic header, tokens, trailer, basis): commit only if the content matches the received whole-file checksum; error => no rename, temp file cleaned up.",
- "C04": "Bounded, event-prefix form of crash atomicity: invariant on the destination path after every file-system event of the model, for every truncation offset of the stream.",
+ "C04": "Bounded, event-prefix form of crash atomicity: invariant on the destination paths after every file-system event of the model, for truncation offsets of the stream, adversarial segments, a two-file session with a damaged second file, and symlink replacement.",
  "C08": "Bounded: every parser of peer bytes is executed on an arbitrary byte string of bounded length; implicit obligations (no panic, index/slice bounds, negative make, exit) are solver queries on every path.",
  "C09": "Bounded: delete pass over symbolic trees (names, kinds, listed subset, dry-run, io-error flag symbolic) through the real io/fs.WalkDir; survivors = listed entries; binary search vs membership.",
  "C10": "Bounded: with DryRun set no mutating or ambient file-system event occurs for an entry of any type over any prior object under any other option; sender emits index echoes only.",
@@ -22,7 +22,7 @@ claimed = {
  "C12": "Bounded: request decision == update rule for all sizes/mtimes (int32 seconds, any nanoseconds)/checksums/options; idempotence as one inductive step.",
  "C15": "Bounded: 64-bit integer wire form for all values; every reference-encoded protocol-27 list (sender liberties symbolic) decodes to the entries sent; the real encoder's output decodes with an independent reference decoder.",
  "C16": "Bounded: identical file => zero literals; match found at every byte offset where the basis has the data (symbolic offset, arbitrary contents incl. bytes >= 0x80); literal bound for prefix/suffix edits.",
- "C17": "Bounded: k frames with symbolic tag/length/payload read in symbolic chunk sizes through the real bufio.Reader; size-limit frames; runs of info frames; writer header/payload.",
+ "C17": "Bounded: k frames with symbolic tag/length/payload read in symbolic chunk sizes through the real bufio.Reader; size-limit frames; runs of info frames; writer header/payload; a whole pull through the real client (ClientRun) with a 40000-byte and a maximum-size data frame and an interleaved info frame.",
 }
 na = {
  "C18": "quantifies over goroutine schedules, transport buffering and data races; needs a concurrency-aware symbolic interpreter (channels, errgroup, io.Pipe, net) that a hand-written SSA executor does not provide; the reachable reductions are not decided by a solver",
